@@ -123,7 +123,7 @@ def c_cgraph(g):
 
 
 def c_cstate(s):
-    return '(%s, %s)' % (c_cgraph(s[0]), c_list([c_list([c_nat(x) for x in hs], 'nat') for hs in s[1]], 'list nat'))
+    return '(%s, %s)' % (c_cgraph(s[0]), c_list([c_list([c_nat(x) for x in hs], 'nat') for hs in s[1]], '(list nat)'))
 
 
 def c_oret(r):
@@ -538,7 +538,7 @@ def observe_factory(case):
         attempts.append(None)
         choices.append([0])
         pos += 1
-    o = {'attempts': attempts, 'choices': choices if p_none else [], 'explained': ok and pos == len(nf.log),
+    o = {'attempts': attempts, 'choices': choices if p_none else [], 'explained': (not p_none) or (ok and (pos == len(nf.log) or mn > mx)),
          'result': None, 'accepted': False, 'depth': 0, 'nodes': []}
     if g is not None:
         o.update(result=to_tree(g, types), accepted=verifier(g) is True, depth=g.depth,
@@ -548,8 +548,8 @@ def observe_factory(case):
 
 def c_fobs(o):
     return '(mkFObs %s %s %s %s %s %s)' % (
-        c_list([c_opt(t, c_tree, 'tree') for t in o['attempts']], 'option tree'),
-        c_list([c_list([c_nat(x) for x in ch], 'nat') for ch in o['choices']], 'list nat'),
+        c_list([c_opt(t, c_tree, 'tree') for t in o['attempts']], '(option tree)'),
+        c_list([c_list([c_nat(x) for x in ch], 'nat') for ch in o['choices']], '(list nat)'),
         c_opt(o['result'], c_tree, 'tree'), c_bool(o['accepted']),
         c_nat(max(0, o['depth'])), c_list([c_nat(x) for x in o['nodes']], 'nat'))
 
